@@ -118,8 +118,18 @@ func C14_Arith() {
 func C14_JSON() {
 	root := combinator.Sentence(text.Trim(json.NewParser()))
 	var in []byte
-	if rt.Choose("shape", 2) == 0 {
+	shape := rt.Choose("shape", 3)
+	if shape == 0 {
 		in = freeInput(rt.Param("N", 3))
+	} else if shape == 2 {
+		// a string literal whose two content bytes are free: escapes (\\t),
+		// multi-byte runes (C3 A9), invalid bytes
+		a, b := rt.Byte("in"), rt.Byte("in")
+		rt.Assume(a != '\r' && b != '\r')
+		in = []byte{'[', '"', a, b, '"', ']'}
+		if a == '\\' {
+			rt.Cover("string literal with an escape")
+		}
 	} else {
 		h := func() []byte {
 			b := rt.Byte("in")
